@@ -125,7 +125,7 @@ def build(rng, depth, pool, allow_special=True):
     if depth <= 0 or r < 0.3:
         return rng.choice([None, True, 3, -1.5, 'text', 'yes', b'by', (1, 'a'), 2 + 3j, Color.RED, Color.BLUE, Point(1, 2), PlainDict, some_function, collections.OrderedDict, len, (), float('inf'), os.path.join])
     sub = lambda: build(rng, depth - 1, pool, allow_special)
-    kinds = ['upperkeys', 'doubling', 'plain', 'slots', 'slotschild', 'slotsdict', 'getset', 'getsettuple', 'newargs', 'reducelist', 'reducedict', 'listsub', 'dictsub', 'listsubattr', 'list', 'dict', 'tuple', 'odict', 'set', 'point', 'frozen', 'sealed', 'shadowed']
+    kinds = ['upperkeys', 'doubling', 'plain', 'slots', 'slotschild', 'slotsdict', 'getset', 'getsettuple', 'newargs', 'reducelist', 'reducedict', 'listsub', 'dictsub', 'listsubattr', 'list', 'dict', 'tuple', 'odict', 'set', 'point', 'frozen', 'sealed', 'shadowed', 'slotsdict_empty']
     k = rng.choice(kinds)
     if k == 'upperkeys': o = UpperKeys({'raw%d' % i: sub() for i in range(rng.choice([0, 1, 2]))})       # built through dict(): keys are still raw
     elif k == 'doubling': o = Doubling({'k%d' % i: rng.choice([1, 'ab', 2.5]) for i in range(rng.choice([0, 1, 2]))})
@@ -150,6 +150,7 @@ def build(rng, depth, pool, allow_special=True):
     elif k == 'tuple': o = tuple(sub() for _ in range(rng.choice([1, 2, 3])))
     elif k == 'odict': o = collections.OrderedDict([('k%d' % i, sub()) for i in range(rng.choice([0, 1, 3]))])
     elif k == 'set': o = set(rng.sample([1, 2, 'a', 'b', (1, 2), None], rng.choice([0, 1, 3])))
+    elif k == 'slotsdict_empty': o = SlotsAndDict(sub(), 3)          # inherited __slots__, an empty __dict__: copyreg reduces it to (None, {slots})
     elif k == 'frozen': o = Frozen(sub(), sub())
     elif k == 'sealed': o = Sealed(p=sub(), q=sub())
     elif k == 'shadowed': o = Shadowed(p=sub())
@@ -220,3 +221,39 @@ def probe_ops(log):
             else: ops.append(('setitems', [x]))
     called_init = any(k == 'init' for k, _ in log)
     return [('create', not called_init, args or [])] + ops
+
+# ---- instrumented classes for the state-application correspondence with coq/Model/PickleState.v
+SLOG = []
+class _SLogS:
+    __slots__ = ()
+    STATE = None
+    def __setattr__(self, k, v): SLOG.append(('setattr', k)); object.__setattr__(self, k, v)
+    def __reduce_ex__(self, proto): return (copyreg.__newobj__, (type(self),), type(self).STATE)
+class PSSlots(_SLogS):
+    __slots__ = ('a', 'b')
+class PSBoth(PSSlots): pass                          # inherited slots and a __dict__
+class _SLogD:
+    STATE = None
+    __setattr__ = _SLogS.__setattr__
+    __reduce_ex__ = _SLogS.__reduce_ex__
+class PSDict(_SLogD): pass
+def _ss(self, st): SLOG.append(('setstate',))
+class PSSlotsS(PSSlots):
+    __slots__ = ()
+    __setstate__ = _ss
+class PSBothS(PSBoth): __setstate__ = _ss
+class PSDictS(PSDict): __setstate__ = _ss
+STATE_CLASSES = {'slots': PSSlots, 'both': PSBoth, 'dict': PSDict, 'slots_s': PSSlotsS, 'both_s': PSBothS, 'dict_s': PSDictS}
+STATE_SHAPES = {'d0': {}, 'd1': {'a': 1}, 'p00': ({}, {}), 'p10': ({'a': 1}, {}), 'p01': ({}, {'b': 2}), 'p11': ({'a': 1}, {'b': 2}), 'pN0': (None, {}), 'pN1': (None, {'b': 2})}
+def observe_state(run):
+    """the operations of Model/PickleState.v observed while `run` rebuilds an instance"""
+    SLOG[:] = []
+    try: inst = run()
+    except AttributeError: return ['AttrError']
+    log = list(SLOG)
+    if ('setstate',) in log: return ['CallSetstate']
+    ops = []
+    d = getattr(inst, '__dict__', {})
+    if [k for k in d if ('setattr', k) not in log]: ops.append('DictUpdate')
+    if any(l[0] == 'setattr' for l in log): ops.append('SetAttrs')
+    return ops
